@@ -22,6 +22,9 @@ pub mod serde_json {
     #[verifier::external_body] pub fn from_reader<T>(f: fs::File, Tracked(w): Tracked<&mut World>) -> (r: Result<T, Error>)
         ensures *final(w) == *old(w), r matches Ok(v) ==> json_parse::<T>(old(w).fs[f.p]) == Some(v), r is Err ==> json_parse::<T>(old(w).fs[f.p]) is None { unimplemented!() }
     #[verifier::external_body] pub fn to_vec<T>(v: &T) -> (r: Result<Vec<u8>, Error>) ensures r matches Ok(b) && b@ == json_enc(*v) { unimplemented!() }
+    // from_slice: the value the bytes denote
+    #[verifier::external_body] pub fn from_slice<T>(b: &[u8]) -> (r: Result<T, Error>)
+        ensures r matches Ok(v) ==> json_parse::<T>(b@) == Some(v), r is Err ==> json_parse::<T>(b@) is None { unimplemented!() }
 }
 pub mod server {
     use vstd::prelude::*;
